@@ -6,4 +6,4 @@ Open Scope N_scope.
 (* (no sessions here: the state space of two associations, a release and Stop is large) *)
 Definition cfg10 : list acfg := [ACfg [] false None; ACfg [] false None].
 Definition ev10 : list env := [rel 0; EStop].
-Lemma inst10_ok : instance_ok 2000000 cfg10 ev10 = true. Proof. vm_compute. reflexivity. Qed.
+Lemma inst10_ok : instance_ok fuel_2m cfg10 ev10 = true. Proof. vm_compute. reflexivity. Qed.
